@@ -173,6 +173,7 @@ PROPS = {
     "C03": {
         "case_sets": ["eval"],
         "ops": ["EVAL"],
+        "line_regex": r"6a6f696e",      # only pipelines that contain a join
         "oracle_clauses": [r"c03-.*", r"c05-parse", r"unreadable-.*"],
         "lean_targets": ["PqlModel.Props.C03"],
         "facts": ["joinTypes", "leftJoinTableAlias", "rightJoinTableAlias"],
